@@ -2,17 +2,17 @@
 # tools/round6.sh <ID> [extra check IDs...] — sixth (mini) round: one change per agent (A -> <ID>-H); confirm in a scratch worktree,
 # store under seeded/, run the quick check(s) under a time limit (tools/mrun.sh), serialised on /repo by a lock.
 ID="$1"; shift
-O=/tmp/seed6/$ID/out
+O=${SEED_BASE:-/tmp/seed6}/$ID/out
 cd /verif
 [ -f "$O/A.patch" ] || { echo "$ID-H: no A.patch"; exit 1; }
 echo "=== $ID-H confirm"
-CM=/tmp/cm6-$ID tools/seed_eval.sh $ID $O A H 2>&1 | tail -14
-line="$ID-H"
+CM=/tmp/cm6-$ID tools/seed_eval.sh $ID $O A ${STORE:-H} 2>&1 | tail -14
+line="$ID-${STORE:-H}"
 for c in $ID "$@"; do
-  res=$(flock /tmp/repo.lock tools/mrun.sh /verif/seeded/$ID-H/patch.diff $c 700 2>&1 | grep '^== ')
+  res=$(flock /tmp/repo.lock tools/mrun.sh /verif/seeded/$ID-${STORE:-H}/patch.diff $c 700 2>&1 | grep '^== ')
   echo "$res"
   r=$(echo "$res" | grep -o 'rc=[0-9]*' | head -1 | cut -d= -f2)
   line="$line\t$c=$r"
 done
-echo -e "$line" >> seeded/round6.tsv
+echo -e "$line" >> seeded/${ROUND_TSV:-round6.tsv}
 rm -rf /tmp/cm6-$ID
